@@ -36,7 +36,7 @@ def generate(rng, tier, r):
 
     thorough = tier == "thorough"
     return gg.gen_program(rng, KINDS, max_tasks=2, max_ops=120 if thorough else 30,
-                          nmax=60 if thorough else 24, float_mode=float_mode(r))
+                          nmax=60 if thorough else 24, float_mode=float_mode(r), rar_cfg_prob=0.2)
 
 
 def _inside(np, a, lo, hi):
@@ -183,6 +183,10 @@ def execute(program, ctx):
             phases.append((v["name"], min(m["epochs"], 2)))
             if v["name"] == "times":
                 check_times(t, v["store"], "times-store", step)
+        if s.get("rar_cfg"):
+            ctx.count("probe.refinement_configured_store")
+        if k in ("statio", "nonstatio"):
+            check_omega(t, np.asarray(g.omega), "omega-store", step)
         if s["method"] == "grid":
             ctx.count("probe.grid_method")
         if any(x < 0 for x in (s.get("min_pts") or []) + [s.get("tmin", 0)]):
